@@ -47,7 +47,18 @@ _WD = C('WD', [P('n', 'int'), P('when', OPT('date'), ['none']), P('where', OPT('
 _YS = {'name': 'YS', 'kind': 'ystring'}
 _DK = C('DK', [P('m', ['dict', REF('US'), 'int']), P('y', OPT(['dict', REF('YS'), 'str']), ['none'])])
 _PR = C('PR', [P('a', 'int'), P('_id', 'int', ['int', 0])])
+_TL = C('Tool', [P('a', 'int')])
+_PN = C('Pen', [P('a', 'int'), P('b', 'str', ['str', 'q'])], ['Tool'])
+_BR = C('Brush', [P('a', 'int'), P('c', 'int', ['int', 0])], ['Tool'])
+_MK = C('Marker', [P('a', 'int'), P('b', 'str', ['str', 'q']), P('c', 'int', ['int', 0])],
+        ['Pen', 'Brush'])
+_SB = C('SBase', [P('line', 'int')], savorize=[['int_add', 'line', -1]])
+_SD = C('SDerived', [P('line', 'int'), P('col', 'int')], ['SBase'])
+_SE = C('SDeep', [P('line', 'int'), P('col', 'int'), P('w', 'int')], ['SDerived'],
+        savorize=[['int_add', 'col', 10]])
 MODELS = {
+    'SV': {'classes': [_SB, _SD, _SE], 'doc_type': REF('SBase')},
+    'DI': {'classes': [_TL, _PN, _BR, _MK], 'doc_type': REF('Tool')},
     'DK': {'classes': [_US, _YS, _DK], 'doc_type': REF('DK')},
     'PR': {'classes': [_PR], 'doc_type': REF('PR')},
     'V': {'classes': [_V], 'doc_type': REF('V')},
@@ -78,10 +89,10 @@ KEYS = {
     'L': ['x', 'a', 'b'], 'DM': ['k', 'j'], 'DU': ['k', 'j'], 'AB': ['a', 'b'],
     'SH': ['center', 'radius', 'width', 'x'], 'UN': ['a', 'b', 'c'],
     'WD': ['n', 'when', 'where', 'zz'], 'BF': ['k'],
-    'DK': ['m', 'y', 'k'], 'PR': ['a', '_id', 'b'],
+    'DK': ['m', 'y', 'k'], 'PR': ['a', '_id', 'b'], 'DI': ['a', 'b', 'c', 'd'], 'SV': ['line', 'col', 'w'],
 }
 SCALS = ['1', 'x', 'true', '1.5', '~', 'red', '"1"']
-SCALS_BY = {'WD': ['1', 'seven', '2001-01-01', '~', 'a/b', '1.5'],
+SCALS_BY = {'SV': ['1', '7', 'x', '~'], 'WD': ['1', 'seven', '2001-01-01', '~', 'a/b', '1.5'],
             'SH': ['1', '1.5', 'x', '~'], 'BF': ['1', 'true', 'x', '~']}
 
 
